@@ -836,6 +836,21 @@ theorem hub_loop_step (srcs : Nat → Src K) (nsrc : Nat) (b as : List (HC K)) (
         loopH srcs nsrc b as a0 zero (x :: xs) hx hy st = ([], [], st1, .raise)) :=
   loopH_step srcs nsrc b as a0 zero x xs hx hy st
 
+-- PENDING
+/-- PENDING (not proved): reads-once for NESTED hubs, on the whole call.  For every filter whose
+polynomials are built by `Poly` arithmetic (`*`, `/ Stream`) from leaf Streams, every Stream object
+written once, any depth — products of products put a hub over a product of hub copies, the Stream-gain
+rewriting puts `inv_gain` under a copy of a copy — after output `j + 1` every source has been pulled
+exactly `j + 1` times (0 if no coefficient of the filter contains it).  Proved: the invariant "buffer
+length = max over copies" for any nesting (C06.12a), and the full statement for hubs that sit directly
+on their source (C06.12c/d); measured on the real code for nested shapes by the entry hub (where this
+very statement is also evaluated on every generated input). -/
+def hub_nested_reads_once_PENDING : Prop :=
+  ∀ (srcs : Nat → Src K) (nsrc : Nat) (num den : PE K) (zero : K) (xs : List K),
+    num.Leafy → den.Leafy → (num.leafs ++ den.leafs).Nodup →
+    ∀ (j : Nat) (row : List Nat), (callH srcs nsrc num den zero xs).trace[j]? = some row →
+      ∀ (k v : Nat), row[k]? = some v → v = 0 ∨ v = j + 1
+
 /-- non-vacuity: `Stream(repeat(1/2, 3)) * (1 + z^-1)` — `Poly.__mul__` makes a hub with two copies -/
 example : (mulHub [((0 : Int), HC.s (It.src 0))] [(0, HC.c (1 : Rat)), (1, HC.c 1)] 0).1
     = [(0, HC.s (.br .mul (.tee 0 0 (.src 0)) 1)), (1, HC.s (.br .mul (.tee 0 1 (.src 0)) 1))] := by
